@@ -4,6 +4,8 @@ Case rule on SBC().get_clusters(stack) with default parameters: exactly two clus
 generator's two slabs (tracked through the permutation), each with dimensionality 2.  Enumerated cells
 (gen/slabs.c03_cells): ordered metal pairs with < 5 % mismatch x facet x layers x lateral size x pbc x noise x
 interface registry; presentation pool per (cell, VERIF_SEED mod 4, k)."""
+import os
+
 import numpy as np
 
 from checks import sbcfam
@@ -34,11 +36,19 @@ def floors(tier):
 def gen_cases(tier, seed):
     universe = slabs.c03_cells()
     sc = seed % 4
+    flt = os.environ.get("VERIF_C03_ONLY")       # one-off sweeps of a newly added part of the universe
+    if flt:
+        universe = [c for c in universe if flt in c["key"]]
     if tier == "thorough":
         chosen = universe
     else:
         rng = np.random.default_rng([seed, 3])
-        chosen = [universe[i] for i in rng.choice(len(universe), size=320, replace=False)]
+        chosen = [universe[i] for i in rng.choice(len(universe), size=min(320, len(universe)), replace=False)]
+        # stratum: compact superlattices (the members in which a slab's periodic images come closest)
+        have = {c["key"] for c in chosen}
+        compact = [c for c in universe if c["key"].endswith("|compact") and c["key"] not in have]
+        if compact:
+            chosen += [compact[i] for i in rng.choice(len(compact), size=min(100, len(compact)), replace=False)]
         listed = {f["key"].split("|", 1)[1] for f in hmain.load_known(ID) if f["key"].startswith("C03|")}
         have = {c["key"] for c in chosen}
         extra = [c for c in universe if c["key"] in listed and c["key"] not in have]
